@@ -103,6 +103,13 @@ fn programs() -> Vec<(Program, bool)> {
     v.push(mk("2 readers x2 hits/pool2/buffer1/channel1/consumer-stopped", 2, 1, Some(1), true, vec![vec![g(1), g(1)], vec![g(2), g(2)]]));
     v.push(mk("2 readers x3 hits/pool1/buffer1/channel1/consumer-slow", 1, 1, Some(1), false, vec![vec![g(1), g(1), g(1)], vec![g(2), g(2), g(2)]]));
     v.push(mk("multi_get([a,a,b]) || multi_get_iterator([b,a,b])/pool1/buffer1/channel2", 1, 1, Some(2), false, vec![vec![Op::MultiRead { keys: vec![1, 1, 2], variant: ReadVariant::MultiGet }], vec![Op::MultiRead { keys: vec![2, 1, 2], variant: ReadVariant::MultiGetIterator }]]));
+    // the key a reader has just hit is removed (delete / eviction) before the reader records the access
+    v.push(mk("reader: get(a);get(a) || delete(a)/pool1/buffer1", 1, 1, None, false, vec![vec![g(1), g(1)], vec![del(1)]]));
+    {
+        let (mut p, f) = mk("reader: get(a);get(b) || evicting-put(c)/pool1/buffer1", 1, 1, None, false, vec![vec![g(1), g(2)], vec![put(3, 99)]]);
+        p.setup.weight = 100;
+        v.push((p, f));
+    }
     v.push(mk("reader x4 hits || delete;put same key/pool1/buffer1/channel2", 1, 1, Some(2), false, vec![vec![g(1), g(1), g(1), g(1)], vec![del(2), put(2, 2)]]));
     v
 }
